@@ -67,6 +67,16 @@ class StatUniverse(eng_gen.Universe):
 
     def gen(self):
         super().gen()
+        # fighter abilities are outside the statistics model (T_stats: CmUnsupported / VmUnsupported) and the
+        # statistics driver has no switch commands: no ability effects, no ability table in these universes
+        ab = [int(eng_gen.fighter_ability_map[a]) for a in self.ability_ids]
+        for ty in self.types.values():
+            ty['abilities'] = []
+            ty['effects'] = [e for e in ty['effects'] if e not in ab]
+            if ty.get('default') in ab:
+                ty['default'] = None
+        for e in ab:
+            self.effects.pop(e, None)
         self.dur = {}
         self.augment()
 
@@ -309,6 +319,7 @@ def gen_history(rng, nops=None):
     nfits = rng.choice([1, 1, 2, 2, 3])
     nss = rng.choice([1, 1, 2])
     w = eng_gen.World(rng, u1, nfits, nss)
+    w.op_switch = w.op_state          # side-effect / ability switches are not part of the statistics driver
     w.setup()
     # extra drones / charges so that the registers hold several members
     for _ in range(rng.randint(1, 3)):
